@@ -6,9 +6,12 @@ Lemmas for C09 (conservation of linear invariants through the Rosenbrock solve).
 * `wdot_of_solve`     : `wᵀM = α wᵀ`, `M x = b` ⇒ `w·b = α (w·x)`  (A2)
 * `attempt_conserves` : one attempt — every stage vector is orthogonal to `w`, `w·Ynew = w·Y`,
                         `w·Yerr = 0` (A3, for an abstract per-cell solver property `WSolve`)
-* `ConsInv_iter`, `rosLoop_eq_iterate` : the whole loop (A4)
-* `wsolve_of_pivots`  : `WSolve` for the four concrete LU variants of `LinAlg.build` from
-                        "no zero pivot"
+* `ConsInv_loop`, `ConsInv_iter` : the whole loop for the abstract solver (A4)
+* `view_shifted_jacobian` : the matrix of an attempt read through the sparse pattern is `a·I − ∂f/∂y`
+* `factor_solve_cell`, `wsolve_attempt` : `WSolve` for the four LU variants of `LinAlg.build` from
+                        "no zero pivot" (via `C04_build_*`)
+* `FullInv_step/_loop/_iter`, `step_conserves` : the whole loop for the model's `Factor`/`Solve`
+* `builtCfg_of_builder` : the configuration hypotheses `BuiltCfg` hold for what the builder constructs
 -/
 import Micm.Properties.C09
 import Micm.Lemmas.JacobianPattern
@@ -151,6 +154,9 @@ variable {α : Type}
 
 /-- cell `c` exists in the dense/sparse per-cell matrix `M` and has `n` entries -/
 def CellShape (n c : Nat) (M : Mat α) : Prop := c < M.size ∧ (M.getD c #[]).size = n
+
+instance (n c : Nat) (M : Mat α) : Decidable (CellShape n c M) := by
+  unfold CellShape; infer_instance
 
 theorem cellShape_fillM {n c : Nat} {M : Mat α} (h : CellShape n c M) (v : α) :
     CellShape n c (fillM M v) ∧ (fillM M v).getD c #[] = Array.replicate n v := by
@@ -498,5 +504,627 @@ theorem ConsInv_iter (hf : ForcOrth s kc w n c) (σ : K) (r : RState K) (h : Con
       (ih (fun k hk => hs k (by omega))) (hs m (by omega))
 
 end Loop
+
+/-! ### the concrete solver: `WSolve` from "no zero pivot" -/
+
+section Concrete
+variable {K : Type} [Field K]
+
+theorem alphaMinusJacobian_size (s : SolverCfg K) (J : Mat K) (a : K) :
+    (s.alphaMinusJacobian J a).size = J.size := by simp [SolverCfg.alphaMinusJacobian]
+
+theorem alphaMinusJacobian_getD (s : SolverCfg K) (J : Mat K) (a : K) (c : Nat) (hc : c < J.size) :
+    (s.alphaMinusJacobian J a).getD c #[] = shiftRow s.diag (J.getD c #[]) a := by
+  rw [alphaMinusJacobian_eq]; exact getD_map' _ J c hc #[] #[]
+
+theorem jacobian_size (s : SolverCfg K) (kc Y F : Mat K) : (s.jacobian kc Y F).size = F.size := by
+  simp [SolverCfg.jacobian]
+
+theorem jacobian_getD (s : SolverCfg K) (kc Y F : Mat K) (c : Nat) (hc : c < F.size) :
+    (s.jacobian kc Y F).getD c #[] =
+      s.tables.subtractJacobianCell s.flatIds (kc.getD c #[]) (Y.getD c #[]) (F.getD c #[]) := by
+  unfold SolverCfg.jacobian; exact getD_mapIdx _ F c hc #[] #[]
+
+theorem subtractJacobianCell_size (t : PSTables K) (flat : List Nat) (k y J : Array K) :
+    (t.subtractJacobianCell flat k y J).size = J.size := jacGo_size k y _ _ _ flat J
+
+theorem cellShape_jacobian (s : SolverCfg K) (kc Y F : Mat K) {n c : Nat} (h : CellShape n c F) :
+    CellShape n c (s.jacobian kc Y F) :=
+  ⟨by rw [jacobian_size]; exact h.1,
+   by rw [jacobian_getD s kc Y F c h.1, subtractJacobianCell_size]; exact h.2⟩
+
+theorem cellShape_shift (s : SolverCfg K) (J : Mat K) (a : K) {n c : Nat} (h : CellShape n c J) :
+    CellShape n c (s.alphaMinusJacobian J a) :=
+  ⟨by rw [alphaMinusJacobian_size]; exact h.1,
+   by rw [alphaMinusJacobian_getD s J a c h.1, shiftRow_size]; exact h.2⟩
+
+/-! the ranks of the diagonal -/
+
+theorem mem_diagRanks (p : Pattern) (q : Nat) :
+    q ∈ p.diagRanks ↔ ∃ i, i < p.n ∧ p.rank i i = .ok q := by
+  unfold Pattern.diagRanks
+  rw [List.mem_filterMap]
+  constructor
+  · rintro ⟨i, hi, h⟩
+    refine ⟨i, List.mem_range.mp hi, ?_⟩
+    split at h
+    · next k hk => rw [hk]; injection h with h; rw [h]
+    · cases h
+  · rintro ⟨i, hi, h⟩
+    exact ⟨i, List.mem_range.mpr hi, by rw [h]⟩
+
+theorem diagRanks_nodup (p : Pattern)
+    (hinj : ∀ r c r' c' q, p.rank r c = .ok q → p.rank r' c' = .ok q → r = r' ∧ c = c') :
+    p.diagRanks.Nodup := by
+  unfold Pattern.diagRanks
+  apply List.Nodup.filterMap _ List.nodup_range
+  intro a a' b hb hb'
+  have h1 : p.rank a a = .ok b := by
+    split at hb
+    · next k hk => rw [hk]; simp at hb; rw [hb]
+    · simp at hb
+  have h2 : p.rank a' a' = .ok b := by
+    split at hb'
+    · next k hk => rw [hk]; simp at hb'; rw [hb']
+    · simp at hb'
+  exact (hinj _ _ _ _ _ h1 h2).1
+
+/-- `−∂f_i/∂y_j` vanishes outside the declared non-zero elements -/
+theorem negJac_eq_zero (procs : List (Process K)) (m : NameMap) (t : PSTables K)
+    (hb : ProcessSet.build procs m = .ok t) (i j : Nat) (hx : (i, j) ∉ t.nonZeroJacobianElements)
+    (k y : Array K) : negJac m procs k y i j = 0 := by
+  unfold negJac
+  rw [neg_eq_zero]
+  apply jac_sum_map_zero
+  intro pi hpi
+  have hp : pi.1 ∈ procs := List.fst_mem_of_mem_zipIdx hpi
+  by_cases hj : j ∈ specReactIds m pi.1.reactants
+  · have hi1 : i ∉ specReactIds m pi.1.reactants := fun h =>
+      hx ((mem_nonZero_of_build procs m t hb (i, j)).mpr ⟨pi.1, hp, hj, Or.inl h⟩)
+    have hi2 : i ∉ (specProdIds m pi.1.products).map (·.1) := fun h =>
+      hx ((mem_nonZero_of_build procs m t hb (i, j)).mpr ⟨pi.1, hp, hj, Or.inr h⟩)
+    have : jacNet (specReactIds m pi.1.reactants) (specProdIds m pi.1.products) i = 0 := by
+      unfold jacNet
+      have hf : (specProdIds m pi.1.products).filter (fun p => p.1 = i) = [] := by
+        rw [List.filter_eq_nil_iff]
+        intro q hq hqi
+        exact hi2 (List.mem_map.mpr ⟨q, hq, by simpa using hqi⟩)
+      rw [hf, List.count_eq_zero_of_not_mem hi1]; simp
+    rw [this, zero_mul]
+  · rw [dMonomial_of_not_mem _ _ _ hj, mul_zero, mul_zero]
+
+/-- a solver configuration as `SolverBuilder` builds it (`n` species, name map `m`, mechanism
+    `procs`, LU variant `kind` on the Jacobian pattern `jac`) -/
+structure BuiltCfg (s : SolverCfg K) (m : NameMap) (procs : List (Process K)) (n : Nat)
+    (kind : LUKind) (jac : Pattern) : Prop where
+  tables : ProcessSet.build procs m = .ok s.tables
+  names : (m.map (·.1)).Nodup
+  ids : (m.map (·.2)).Nodup
+  idlt : ∀ e ∈ m, e.2 < n
+  param : ∀ p ∈ procs, ∀ r ∈ p.reactants, r.param = true → nmLookup m r.name = none
+  la : s.la = LinAlg.build kind jac
+  jn : jac.n = n
+  jdiag : ∀ i, i < jac.n → jac.zero? i i = false
+  flat : s.tables.jacobianFlatIds s.la.A = .ok s.flatIds
+  diag : s.diag = s.la.A.diagRanks
+  inj : ∀ r c r' c' q, s.la.A.rank r c = .ok q → s.la.A.rank r' c' = .ok q → r = r' ∧ c = c'
+  range : ∀ r c q, s.la.A.rank r c = .ok q → q < s.la.A.nnz
+  diagP : ∀ i, i < n → s.la.A.zero? i i = false
+  cover : ∀ x ∈ s.tables.nonZeroJacobianElements, s.la.A.zero? x.1 x.2 = false
+
+theorem build_A_n (kind : LUKind) (jac : Pattern) : (LinAlg.build kind jac).A.n = jac.n := by
+  cases kind <;> rfl
+
+theorem build_kind (kind : LUKind) (jac : Pattern) : (LinAlg.build kind jac).kind = kind := by
+  cases kind <;> rfl
+
+variable {s : SolverCfg K} {m : NameMap} {procs : List (Process K)} {n : Nat} {kind : LUKind}
+  {jac : Pattern}
+
+theorem BuiltCfg.An (hb : BuiltCfg s m procs n kind jac) : s.la.A.n = n := by
+  rw [hb.la, build_A_n, hb.jn]
+
+/-- **the matrix of an attempt, logically**: cell `c` of `−J(Y)` (assembled into a zeroed buffer)
+    shifted by `a` reads, through the pattern of `state.jacobian_`, as `a·I − ∂f/∂y` — on *all*
+    index pairs `i, j < n` (absent elements are structural zeros of the derivative) -/
+theorem view_shifted_jacobian (hb : BuiltCfg s m procs n kind jac) (kc Y B : Mat K) (c : Nat)
+    (hB : CellShape s.la.A.nnz c B) (a : K) (i j : Nat) (hi : i < n) (hj : j < n) :
+    view s.la.A ((s.alphaMinusJacobian (s.jacobian kc Y (fillM B 0)) a).getD c #[]) i j
+      = (if i = j then a else 0) + negJac m procs (kc.getD c #[]) (Y.getD c #[]) i j := by
+  obtain ⟨z1, z2⟩ := cellShape_fillM hB (0 : K)
+  have hc : c < (s.jacobian kc Y (fillM B 0)).size := by rw [jacobian_size]; exact z1.1
+  rw [alphaMinusJacobian_getD _ _ _ _ hc, jacobian_getD _ _ _ _ _ z1.1, z2]
+  generalize hJr : s.tables.subtractJacobianCell s.flatIds (kc.getD c #[]) (Y.getD c #[])
+    (Array.replicate s.la.A.nnz 0) = Jr
+  have hsz : Jr.size = s.la.A.nnz := by rw [← hJr, subtractJacobianCell_size]; simp
+  have hnd : s.diag.Nodup := by rw [hb.diag]; exact diagRanks_nodup _ hb.inj
+  unfold view
+  cases hz : s.la.A.zero? i j
+  · obtain ⟨q, hq⟩ := (zero?_false_iff_rank _ _ _).mp hz
+    have hval : rd Jr q = negJac m procs (kc.getD c #[]) (Y.getD c #[]) i j := by
+      rw [← hJr]
+      exact C02_jacobian_zero procs m s.tables hb.tables hb.names hb.ids hb.param s.la.A s.flatIds
+        hb.flat hb.inj _ _ s.la.A.nnz hb.range i j q hq
+    have hlt : q < Jr.size := by rw [hsz]; exact hb.range _ _ _ hq
+    simp only [Bool.false_eq_true, if_false]
+    rw [rk_of_rank hq, rd_shiftRow _ hnd, hval]
+    by_cases hij : i = j
+    · subst hij
+      have : q ∈ s.diag := by
+        rw [hb.diag, mem_diagRanks]; exact ⟨i, by rw [hb.An]; exact hi, hq⟩
+      simp [this, hlt]; ring
+    · have : q ∉ s.diag := by
+        rw [hb.diag, mem_diagRanks]
+        rintro ⟨i', _, h'⟩
+        obtain ⟨e1, e2⟩ := hb.inj _ _ _ _ _ hq h'
+        exact hij (e1.trans e2.symm)
+      simp [this, hij]
+  · have hij : i ≠ j := by
+      rintro rfl; rw [hb.diagP i hi] at hz; cases hz
+    have hx : (i, j) ∉ s.tables.nonZeroJacobianElements := fun h => by
+      have := hb.cover (i, j) h
+      rw [hz] at this; cases this
+    simp only [if_true, hij, if_false, zero_add]
+    exact (negJac_eq_zero procs m s.tables hb.tables i j hx _ _).symm
+
+/-- the diagonal of `U` after `Factor`, cell `c` (read in `state.jacobian_` for the in-place
+    variants, in `state.upper_matrix_` otherwise) -/
+def attPivot (s : SolverCfg K) (fa : Mat K × Mat K × Mat K) (c i : Nat) : K :=
+  if s.la.kind.inPlace then view s.la.A (fa.1.getD c #[]) i i else view s.la.Up (fa.2.2.getD c #[]) i i
+
+/-- `Factor` then `Solve` of the model, cell `c`, for each of the four LU variants of
+    `LinAlg.build`: the result solves `A x = b` for the logical matrix `A` held by cell `c` of the
+    matrix handed to `Factor`, provided no pivot of that cell is zero -/
+theorem factor_solve_cell (hla : s.la = LinAlg.build kind jac) (hjn : jac.n = n)
+    (hjd : ∀ i, i < jac.n → jac.zero? i i = false)
+    (Mx Lo Up X : Mat K) (c : Nat) (hM : CellShape s.la.A.nnz c Mx)
+    (hL : CellShape s.la.Lp.nnz c Lo) (hU : CellShape s.la.Up.nnz c Up) (hX : CellShape n c X)
+    (hpiv : ∀ i, i < n → attPivot s (s.factor Mx Lo Up) c i ≠ 0) (i : Nat) (hi : i < n) :
+    ∑ j ∈ range n, view s.la.A (Mx.getD c #[]) i j *
+      rd ((s.linSolve (s.factor Mx Lo Up).1 (s.factor Mx Lo Up).2.1 (s.factor Mx Lo Up).2.2 X).getD c #[]) j
+      = rd (X.getD c #[]) i := by
+  have hk : s.la.kind = kind := by rw [hla, build_kind]
+  rw [linSolve_getD s _ _ _ X c hX.1]
+  unfold attPivot at hpiv
+  subst hjn
+  cases kind with
+  | doolittle =>
+    have e1 : (s.factor Mx Lo Up).2.1.getD c #[] =
+        (doolittleCell s.la.dRows (Mx.getD c #[]) (Lo.getD c #[], Up.getD c #[])).1 := by
+      unfold SolverCfg.factor; simp only [hk]
+      rw [getD_map' _ _ c (by simpa using hM.1) #[] (#[], #[]), getD_mapIdx _ Mx c hM.1 (#[], #[]) #[]]
+    have e2 : (s.factor Mx Lo Up).2.2.getD c #[] =
+        (doolittleCell s.la.dRows (Mx.getD c #[]) (Lo.getD c #[], Up.getD c #[])).2 := by
+      unfold SolverCfg.factor; simp only [hk]
+      rw [getD_map' _ _ c (by simpa using hM.1) #[] (#[], #[]), getD_mapIdx _ Mx c hM.1 (#[], #[]) #[]]
+    simp only [hk, LUKind.inPlace, Bool.false_eq_true, if_false] at hpiv ⊢
+    rw [e1, e2]
+    rw [e2] at hpiv
+    rw [hla] at hL hU hpiv ⊢
+    exact C04_build_doolittle jac _ _ _ _ hL.2 hU.2 hX.2 hpiv i hi
+  | mozart =>
+    have e1 : (s.factor Mx Lo Up).2.1.getD c #[] =
+        (mozartCell s.la.mInit s.la.mRows (Mx.getD c #[]) (Lo.getD c #[], Up.getD c #[])).1 := by
+      unfold SolverCfg.factor; simp only [hk]
+      rw [getD_map' _ _ c (by simpa using hM.1) #[] (#[], #[]), getD_mapIdx _ Mx c hM.1 (#[], #[]) #[]]
+    have e2 : (s.factor Mx Lo Up).2.2.getD c #[] =
+        (mozartCell s.la.mInit s.la.mRows (Mx.getD c #[]) (Lo.getD c #[], Up.getD c #[])).2 := by
+      unfold SolverCfg.factor; simp only [hk]
+      rw [getD_map' _ _ c (by simpa using hM.1) #[] (#[], #[]), getD_mapIdx _ Mx c hM.1 (#[], #[]) #[]]
+    simp only [hk, LUKind.inPlace, Bool.false_eq_true, if_false] at hpiv ⊢
+    rw [e1, e2]
+    rw [e2] at hpiv
+    rw [hla] at hL hU hpiv ⊢
+    exact C04_build_mozart jac hjd _ _ _ _ hL.2 hU.2 hX.2 hpiv i hi
+  | doolittleInPlace =>
+    have e1 : (s.factor Mx Lo Up).1.getD c #[] = doolittleInPlaceCell s.la.diRows (Mx.getD c #[]) := by
+      unfold SolverCfg.factor; simp only [hk]
+      rw [getD_map' _ _ c hM.1 #[] #[]]
+    simp only [hk, LUKind.inPlace, if_true] at hpiv ⊢
+    rw [e1]
+    rw [e1] at hpiv
+    rw [hla] at hM hpiv ⊢
+    exact C04_build_doolittleInPlace jac _ _ hM.2 hX.2 hpiv i hi
+  | mozartInPlace =>
+    have e1 : (s.factor Mx Lo Up).1.getD c #[] = mozartInPlaceCell s.la.miRows (Mx.getD c #[]) := by
+      unfold SolverCfg.factor; simp only [hk]
+      rw [getD_map' _ _ c hM.1 #[] #[]]
+    simp only [hk, LUKind.inPlace, if_true] at hpiv ⊢
+    rw [e1]
+    rw [e1] at hpiv
+    rw [hla] at hM hpiv ⊢
+    exact C04_build_mozartInPlace jac hjd _ _ hM.2 hX.2 hpiv i hi
+
+end Concrete
+
+/-! ### the concrete attempt and loop -/
+
+section ConcreteLoop
+variable {K : Type} [Field K]
+
+/-- the unit vector `e_i` of length `n` -/
+def unitVec (n i : Nat) : Array K := wr (Array.replicate n 0) i 1
+
+theorem wdot_unitVec (w : Nat → K) (n i : Nat) (hi : i < n) : wdot w n (unitVec n i) = w i := by
+  unfold wdot unitVec
+  have : ∀ j, w j * rd (wr (Array.replicate n (0 : K)) i 1) j = if i = j then w i else 0 := by
+    intro j
+    rw [rd_wr, rd_replicate_zero]
+    by_cases h : i = j
+    · subst h; simp [hi]
+    · simp [h]
+  simp only [this, sum_ite_eq, mem_range, hi, if_true]
+
+/-- if the cell solve inverts a matrix `M` with `wᵀM = α wᵀ` on every right-hand side, it preserves
+    orthogonality to `w` — also for `α = 0`, where solvability forces `w = 0` on the cell -/
+theorem wsolve_of_solves (s : SolverCfg K) (w : Nat → K) (n c : Nat) (J Lo Up : Mat K)
+    (M : Nat → Nat → K) (α : K)
+    (hM : ∀ j, j < n → ∑ i ∈ range n, w i * M i j = α * w j)
+    (hsol : ∀ X : Mat K, CellShape n c X → ∀ i, i < n →
+      ∑ j ∈ range n, M i j * rd ((s.linSolve J Lo Up X).getD c #[]) j = rd (X.getD c #[]) i) :
+    WSolve s w n c J Lo Up := by
+  intro X hX hX0
+  have key : ∀ X : Mat K, CellShape n c X →
+      wdot w n (X.getD c #[]) = α * wdot w n ((s.linSolve J Lo Up X).getD c #[]) := fun X hX =>
+    wdot_of_solve n w M α (fun j => rd ((s.linSolve J Lo Up X).getD c #[]) j)
+      (fun i => rd (X.getD c #[]) i) hM (hsol X hX)
+  by_cases hα : α = 0
+  · have hw : ∀ i, i < n → w i = 0 := by
+      intro i hi
+      have hsh : CellShape n c (Array.replicate (c + 1) (unitVec n i) : Mat K) := by
+        refine ⟨by simp, ?_⟩
+        have : (Array.replicate (c + 1) (unitVec n i) : Mat K).getD c #[] = unitVec n i := by
+          simp [Array.getD]
+        rw [this]; simp [unitVec]
+      have := key _ hsh
+      rw [hα, zero_mul] at this
+      have e : (Array.replicate (c + 1) (unitVec n i) : Mat K).getD c #[] = unitVec n i := by
+        simp [Array.getD]
+      rw [e, wdot_unitVec w n i hi] at this
+      exact this
+    unfold wdot
+    exact sum_eq_zero (fun i hi => by rw [hw i (mem_range.mp hi), zero_mul])
+  · have := key X hX
+    rw [hX0] at this
+    rcases mul_eq_zero.mp this.symm with h | h
+    · exact absurd h hα
+    · exact h
+
+/-! shapes: converses and the factorisation -/
+
+theorem cellShape_of_fillM {n c : Nat} {M : Mat K} (v : K) (h : CellShape n c (fillM M v)) :
+    CellShape n c M := by
+  obtain ⟨h1, h2⟩ := h
+  have h1' : c < M.size := by simpa [fillM] using h1
+  refine ⟨h1', ?_⟩
+  have : (fillM M v).getD c #[] = Array.replicate (M.getD c #[]).size v :=
+    (cellShape_fillM (n := (M.getD c #[]).size) ⟨h1', rfl⟩ v).2
+  rw [this] at h2
+  simpa using h2
+
+theorem cellShape_of_jacobian (s : SolverCfg K) (kc Y F : Mat K) {n c : Nat}
+    (h : CellShape n c (s.jacobian kc Y F)) : CellShape n c F := by
+  obtain ⟨h1, h2⟩ := h
+  rw [jacobian_size] at h1
+  rw [jacobian_getD s kc Y F c h1, subtractJacobianCell_size] at h2
+  exact ⟨h1, h2⟩
+
+theorem cellShape_of_shift (s : SolverCfg K) (J : Mat K) (a : K) {n c : Nat}
+    (h : CellShape n c (s.alphaMinusJacobian J a)) : CellShape n c J := by
+  obtain ⟨h1, h2⟩ := h
+  rw [alphaMinusJacobian_size] at h1
+  rw [alphaMinusJacobian_getD s J a c h1, shiftRow_size] at h2
+  exact ⟨h1, h2⟩
+
+theorem doolittleInPlaceCell_size (rows : List DIRow) (M : Array K) :
+    (doolittleInPlaceCell rows M).size = M.size := by
+  unfold doolittleInPlaceCell
+  apply foldl_size
+  intro M r
+  simp only []
+  rw [foldl_size, foldl_size]
+  · intro M e; exact foldl_size _ (fun a b => by simp) _ _
+  · intro M e; simp only [wr_size]; exact foldl_size _ (fun a b => by simp) _ _
+
+theorem mozartInPlaceCell_size (rows : List MIRow) (M : Array K) :
+    (mozartInPlaceCell rows M).size = M.size := by
+  unfold mozartInPlaceCell
+  apply foldl_size
+  intro M r
+  simp only []
+  rw [foldl_size, foldl_size]
+  · intro a b; simp
+  · intro M k; exact foldl_size _ (fun a b => by simp) _ _
+
+theorem cellShape_factor (s : SolverCfg K) (Mx Lo Up : Mat K) {nA nL nU c : Nat}
+    (hM : CellShape nA c Mx) (hL : CellShape nL c Lo) (hU : CellShape nU c Up) :
+    CellShape nA c (s.factor Mx Lo Up).1 ∧ CellShape nL c (s.factor Mx Lo Up).2.1 ∧
+    CellShape nU c (s.factor Mx Lo Up).2.2 := by
+  cases hk : s.la.kind.inPlace
+  · rw [factor_sep s hk]
+    refine ⟨hM, ⟨by simpa using hM.1, ?_⟩, ⟨by simpa using hM.1, ?_⟩⟩
+    · rw [getD_map' _ _ c (by simpa using hM.1) #[] (#[], #[]), getD_mapIdx _ Mx c hM.1 (#[], #[]) #[],
+        (luCellSep_size s _ _).1]; exact hL.2
+    · rw [getD_map' _ _ c (by simpa using hM.1) #[] (#[], #[]), getD_mapIdx _ Mx c hM.1 (#[], #[]) #[],
+        (luCellSep_size s _ _).2]; exact hU.2
+  · rw [(factor_inplace s hk Mx Lo Up).1]
+    refine ⟨?_, hL, hU⟩
+    unfold SolverCfg.factor
+    cases hkk : s.la.kind
+    · rw [hkk] at hk; cases hk
+    · rw [hkk] at hk; cases hk
+    · exact ⟨by simpa using hM.1, by
+        simp only []; rw [getD_map' _ _ c hM.1 #[] #[], doolittleInPlaceCell_size]; exact hM.2⟩
+    · exact ⟨by simpa using hM.1, by
+        simp only []; rw [getD_map' _ _ c hM.1 #[] #[], mozartInPlaceCell_size]; exact hM.2⟩
+
+variable (o : Ops K) (cs : Consts K) {s : SolverCfg K} (p : RosParams K) (kc : Mat K)
+    (atol : Array K) (rtol : K) (T hm : K) (w : Nat → K) {n : Nat} (c : Nat)
+    {m : NameMap} {procs : List (Process K)} {kind : LUKind} {jac : Pattern}
+
+/-- cell `c` of the sparse data of the state has the sizes of the configured patterns -/
+structure SparseOK (s : SolverCfg K) (c : Nat) (r : RState K) : Prop where
+  jac : CellShape s.la.A.nnz c r.sc.jac
+  lower : CellShape s.la.Lp.nnz c r.sc.lower
+  upper : CellShape s.la.Up.nnz c r.sc.upper
+
+theorem SparseOK_prologue (r : RState K) (h : SparseOK s c r) :
+    SparseOK s c (rosPrologue o cs s p kc T r) := by
+  have hc := rosPrologue_cases o cs s p kc T r
+  generalize rosPrologue o cs s p kc T r = r' at hc ⊢
+  cases hc with
+  | inStep _ => exact h
+  | converged => exact ⟨h.1, h.2, h.3⟩
+  | maxSteps => exact ⟨h.1, h.2, h.3⟩
+  | tooSmall => exact ⟨h.1, h.2, h.3⟩
+  | start => exact ⟨cellShape_jacobian s kc _ _ (cellShape_fillM h.1 0).1, h.2, h.3⟩
+
+theorem SparseOK_attempt (r : RState K) (h : SparseOK s c r) :
+    SparseOK s c (rosAttempt o cs s p kc atol rtol hm r) := by
+  obtain ⟨f1, f2, f3⟩ := cellShape_factor s (attMatrix s p r) r.sc.lower r.sc.upper
+    (cellShape_shift s r.sc.jac (attAlpha s p r) h.1) h.2 h.3
+  obtain ⟨l1, l2⟩ := rosAttempt_lu o cs s p kc atol rtol hm r
+  refine ⟨?_, by rw [l1]; exact f2, by rw [l2]; exact f3⟩
+  rw [rosAttempt_jac]; split
+  · exact cellShape_jacobian s kc _ _ (cellShape_fillM f1 0).1
+  · exact f1
+
+/-- the forcing of a mechanism that balances `w` is orthogonal to `w` in every cell -/
+theorem forcOrth_of_balanced (hb : BuiltCfg s m procs n kind jac) (rxns : List (RRxn K))
+    (hr : Resolves m procs rxns)
+    (hbal : ∀ rx ∈ rxns, (rx.2.map fun p => w p.1 * p.2).sum = (rx.1.map w).sum) :
+    ForcOrth s kc w n c := by
+  intro Y F hF
+  obtain ⟨z1, z2⟩ := cellShape_fillM hF (0 : K)
+  rw [forcing_getD s kc Y _ c z1.1, z2]
+  exact C09_forcing_orthogonal m procs s.tables rxns (.inr hb.tables) hr n hb.idlt w hbal _ _
+
+/-- **the solve of one attempt preserves orthogonality**: post-prologue state `r` whose Jacobian
+    buffer holds the (shifted) `−J(Y)` (`JacHolds`), sparse buffers of the right sizes, no zero pivot
+    in cell `c` -/
+theorem wsolve_attempt (hb : BuiltCfg s m procs n kind jac) (rxns : List (RRxn K))
+    (hr : Resolves m procs rxns)
+    (hbal : ∀ rx ∈ rxns, (rx.2.map fun p => w p.1 * p.2).sum = (rx.1.map w).sum)
+    (r : RState K) (B : Mat K) (hB : JacHolds s kc r B) (hsp : SparseOK s c r)
+    (hpiv : ∀ i, i < n → attPivot s (attFactor s p r) c i ≠ 0) :
+    WSolve s w n c (attFactor s p r).1 (attFactor s p r).2.1 (attFactor s p r).2.2 := by
+  have hmx := attMatrix_of_JacHolds s p kc r B hB
+  have hBs : CellShape s.la.A.nnz c B := by
+    have h1 := hsp.jac
+    unfold JacHolds at hB
+    rw [hB] at h1
+    split at h1
+    · exact cellShape_of_fillM 0 (cellShape_of_jacobian s kc _ _ h1)
+    · exact cellShape_of_fillM 0 (cellShape_of_jacobian s kc _ _ (cellShape_of_shift s _ _ h1))
+  have hMs : CellShape s.la.A.nnz c (attMatrix s p r) := cellShape_shift s _ _ hsp.jac
+  apply wsolve_of_solves s w n c _ _ _
+    (fun i j => view s.la.A ((attMatrix s p r).getD c #[]) i j) (1 / (r.ctl.h * p.gamma0))
+  · intro j hj
+    rw [hmx]
+    unfold jac0
+    have e : ∀ i ∈ range n, w i * view s.la.A
+        ((s.alphaMinusJacobian (s.jacobian kc r.Y (fillM B 0)) (1 / (r.ctl.h * p.gamma0))).getD c #[]) i j
+        = (if i = j then w i * (1 / (r.ctl.h * p.gamma0)) else 0)
+          + w i * negJac m procs (kc.getD c #[]) (r.Y.getD c #[]) i j := by
+      intro i hi
+      rw [view_shifted_jacobian hb kc r.Y B c hBs _ i j (mem_range.mp hi) hj]
+      by_cases hij : i = j <;> simp [hij, mul_add]
+    rw [sum_congr rfl e, sum_add_distrib, negJac_orthogonal m procs rxns hr n hb.idlt w hbal,
+      sum_ite_eq' , add_zero]
+    simp only [mem_range, hj, if_true]; ring
+  · intro X hX i hi
+    exact factor_solve_cell hb.la hb.jn hb.jdiag (attMatrix s p r) r.sc.lower r.sc.upper X c hMs
+      hsp.lower hsp.upper hX hpiv i hi
+
+/-- the combined invariant of cell `c` -/
+structure FullInv (s : SolverCfg K) (p : RosParams K) (kc : Mat K) (w : Nat → K) (n c : Nat) (σ : K)
+    (r : RState K) : Prop where
+  cons : ConsInv p w n c σ r
+  sparse : SparseOK s c r
+  shift : ShiftInv s kc r
+
+theorem FullInv_step (hb : BuiltCfg s m procs n kind jac) (rxns : List (RRxn K))
+    (hr : Resolves m procs rxns)
+    (hbal : ∀ rx ∈ rxns, (rx.2.map fun p => w p.1 * p.2).sum = (rx.1.map w).sum)
+    (σ : K) (r : RState K) (h : FullInv s p kc w n c σ r)
+    (hpiv : (rosPrologue o cs s p kc T r).status = .running → ∀ i, i < n →
+      attPivot s (attFactor s p (rosPrologue o cs s p kc T r)) c i ≠ 0) :
+    FullInv s p kc w n c σ (rosStep o cs s p kc atol rtol T hm r) := by
+  have hf := forcOrth_of_balanced kc w c hb rxns hr hbal
+  have hsp := SparseOK_prologue o cs p kc T c r h.sparse
+  have hsh := ShiftInv_prologue o cs s p kc T r h.shift
+  refine ⟨?_, ?_, ?_⟩
+  · apply ConsInv_step o cs s p kc atol rtol T hm w n c hf σ r h.cons
+    intro hrun
+    obtain ⟨B, hB⟩ := hsh hrun (rosPrologue_running_inStep o cs s p kc T r hrun)
+    exact wsolve_attempt p kc w c hb rxns hr hbal _ B hB hsp (hpiv hrun)
+  · exact rosStep_inv o cs s p kc atol rtol T hm (SparseOK s c) r (fun _ => hsp)
+      (fun r' _ _ h' => SparseOK_attempt o cs p kc atol rtol hm c r' h') h.sparse
+  · exact rosStep_inv o cs s p kc atol rtol T hm (ShiftInv s kc) r (fun _ => hsh)
+      (fun r' h1 _ => ShiftInv_attempt o cs s p kc atol rtol hm r' h1) h.shift
+
+theorem FullInv_loop (hb : BuiltCfg s m procs n kind jac) (rxns : List (RRxn K))
+    (hr : Resolves m procs rxns)
+    (hbal : ∀ rx ∈ rxns, (rx.2.map fun p => w p.1 * p.2).sum = (rx.1.map w).sum)
+    (σ : K) (fuel : Nat) (r : RState K) (h : FullInv s p kc w n c σ r)
+    (hpiv : ∀ k, k < fuel →
+      (rosPrologue o cs s p kc T ((rosStep o cs s p kc atol rtol T hm)^[k] r)).status = .running →
+      ∀ i, i < n → attPivot s
+        (attFactor s p (rosPrologue o cs s p kc T ((rosStep o cs s p kc atol rtol T hm)^[k] r))) c i ≠ 0) :
+    FullInv s p kc w n c σ (rosLoop o cs s p kc atol rtol T hm fuel r) := by
+  induction fuel generalizing r with
+  | zero =>
+    rw [rosLoop_zero]; split
+    · exact ⟨⟨⟨h.1.1.1, h.1.1.2, h.1.1.3, h.1.1.4, h.1.1.5⟩, h.1.2, fun h1 => by cases h1⟩,
+        ⟨h.2.1, h.2.2, h.2.3⟩, fun h1 => by cases h1⟩
+    · exact h
+  | succ fuel ih =>
+    rw [rosLoop_succ]; split
+    · apply ih _ (FullInv_step o cs p kc atol rtol T hm w c hb rxns hr hbal σ r h (hpiv 0 (by omega)))
+      intro k hk
+      have := hpiv (k + 1) (by omega)
+      rwa [Function.iterate_succ_apply] at this
+    · exact h
+
+theorem FullInv_iter (hb : BuiltCfg s m procs n kind jac) (rxns : List (RRxn K))
+    (hr : Resolves m procs rxns)
+    (hbal : ∀ rx ∈ rxns, (rx.2.map fun p => w p.1 * p.2).sum = (rx.1.map w).sum)
+    (σ : K) (r : RState K) (h : FullInv s p kc w n c σ r) (N : Nat)
+    (hpiv : ∀ k, k < N →
+      (rosPrologue o cs s p kc T ((rosStep o cs s p kc atol rtol T hm)^[k] r)).status = .running →
+      ∀ i, i < n → attPivot s
+        (attFactor s p (rosPrologue o cs s p kc T ((rosStep o cs s p kc atol rtol T hm)^[k] r))) c i ≠ 0) :
+    FullInv s p kc w n c σ ((rosStep o cs s p kc atol rtol T hm)^[N] r) := by
+  induction N with
+  | zero => exact h
+  | succ N ih =>
+    rw [Function.iterate_succ_apply']
+    exact FullInv_step o cs p kc atol rtol T hm w c hb rxns hr hbal σ _
+      (ih (fun k hk => hpiv k (by omega))) (hpiv N (by omega))
+
+/-- the initial state of `rosSolve` satisfies the invariant when cell `c` of the inputs is well shaped -/
+theorem FullInv_init (h0 : K) (Y : Mat K) (sc : Scratch K)
+    (hY : CellShape n c Y) (hf0 : CellShape n c sc.f0) (hye : CellShape n c sc.yerr)
+    (hks : p.stages ≤ sc.k.size) (hk : ∀ i, i < p.stages → CellShape n c (sc.k.getD i #[]))
+    (hj : CellShape s.la.A.nnz c sc.jac) (hl : CellShape s.la.Lp.nnz c sc.lower)
+    (hu : CellShape s.la.Up.nnz c sc.upper) :
+    FullInv s p kc w n c (wdot w n (Y.getD c #[])) (rosInit h0 Y sc) :=
+  ⟨⟨⟨hY, hf0, hye, hks, hk⟩, rfl, fun _ h => by cases h⟩, ⟨hj, hl, hu⟩, fun _ h => by cases h⟩
+
+end ConcreteLoop
+
+/-! ### one iteration, as seen from the state before it -/
+
+section StepView
+variable {K : Type} [Field K]
+variable (o : Ops K) (cs : Consts K) {s : SolverCfg K} (p : RosParams K) (kc : Mat K)
+    (atol : Array K) (rtol : K) (T hm : K) (w : Nat → K) {n : Nat} (c : Nat)
+    {m : NameMap} {procs : List (Process K)} {kind : LUKind} {jac : Pattern}
+
+/-- the factorisation of the attempt of this iteration is `Factor(att.matrix)` on the current `L`/`U` -/
+theorem attFactor_prologue (r : RState K) :
+    attFactor s p (rosPrologue o cs s p kc T r) =
+      s.factor (attMatrix s p (rosPrologue o cs s p kc T r)) r.sc.lower r.sc.upper := by
+  obtain ⟨_, f2, f3, _⟩ := rosPrologue_frame_sc o cs s p kc T r
+  unfold attFactor; rw [f2, f3]
+
+/-- **A3, concrete**: an iteration that records the attempt `att`, from a running state satisfying the
+    invariant, with no zero pivot in cell `c`: all stage vectors and the error estimate are orthogonal
+    to `w`, and `w·Y` is unchanged (whether the attempt is accepted or rejected) -/
+theorem step_conserves (hb : BuiltCfg s m procs n kind jac) (rxns : List (RRxn K))
+    (hr : Resolves m procs rxns)
+    (hbal : ∀ rx ∈ rxns, (rx.2.map fun p => w p.1 * p.2).sum = (rx.1.map w).sum)
+    (σ : K) (r : RState K) (h : FullInv s p kc w n c σ r) (att : Attempt K)
+    (ht : (rosStep o cs s p kc atol rtol T hm r).trace = att :: r.trace)
+    (hpiv : ∀ i, i < n → attPivot s (s.factor att.matrix r.sc.lower r.sc.upper) c i ≠ 0) :
+    (∀ i, i < p.stages →
+      wdot w n (((rosStep o cs s p kc atol rtol T hm r).sc.k.getD i #[]).getD c #[]) = 0) ∧
+    wdot w n ((rosStep o cs s p kc atol rtol T hm r).sc.yerr.getD c #[]) = 0 ∧
+    wdot w n ((rosStep o cs s p kc atol rtol T hm r).Y.getD c #[]) = wdot w n (r.Y.getD c #[]) := by
+  obtain ⟨hs, rfl⟩ := rosStep_trace_cons o cs s p kc atol rtol T hm r att ht
+  have hf := forcOrth_of_balanced kc w c hb rxns hr hbal
+  have hsp := SparseOK_prologue o cs p kc T c r h.sparse
+  have hsh := ShiftInv_prologue o cs s p kc T r h.shift
+  have hco := ConsInv_prologue o cs s p kc T w n c hf σ r h.cons
+  have hin := rosPrologue_running_inStep o cs s p kc T r hs
+  obtain ⟨B, hB⟩ := hsh hs hin
+  have hpiv' : ∀ i, i < n →
+      attPivot s (attFactor s p (rosPrologue o cs s p kc T r)) c i ≠ 0 := by
+    rw [attFactor_prologue]; exact hpiv
+  have hws := wsolve_attempt p kc w c hb rxns hr hbal _ B hB hsp hpiv'
+  obtain ⟨a1, ⟨_, a3⟩, ⟨_, a5⟩⟩ := attempt_conserves s p kc w n c hf _ hws hco.1.ksz hco.1.k hco.1.f0
+    (hco.f0 hs hin) hco.1.Y hco.1.yerr
+  rw [rosStep_attempt o cs s p kc atol rtol T hm r hs, rosAttempt_k, rosAttempt_yerr, rosAttempt_Y]
+  refine ⟨fun i hi => (a1 i hi).2, a5, ?_⟩
+  have fY := (rosPrologue_frame o cs s p kc T r).2.1
+  split
+  · rw [fY]
+  · rw [a3, fY]
+
+end StepView
+
+/-! ### `BuiltCfg` holds for the configuration `SolverBuilder` constructs -/
+
+section Builder
+variable {K : Type} [Field K]
+
+theorem build_A_good (kind : LUKind) (jac : Pattern) (hg : jac.Good) : (LinAlg.build kind jac).A.Good := by
+  cases kind with
+  | doolittle => exact hg
+  | mozart => exact hg
+  | doolittleInPlace =>
+    exact good_mk (wf_doolittleInPlaceSymbolic jac.n (fun r c => jac.zero? r c)) jac.csc jac.L
+  | mozartInPlace =>
+    exact good_mk (wf_mozartInPlaceSymbolic jac.n (fun r c => jac.zero? r c)) jac.csc jac.L
+
+theorem build_A_support (kind : LUKind) (jac : Pattern) (r c : Nat) (hr : r < jac.n) (hc : c < jac.n)
+    (h : jac.zero? r c = false) : (LinAlg.build kind jac).A.zero? r c = false := by
+  cases kind with
+  | doolittle => exact h
+  | mozart => exact h
+  | doolittleInPlace =>
+    exact (zero?_mk_iff (wf_doolittleInPlaceSymbolic jac.n (fun r c => jac.zero? r c)) jac.csc jac.L r c).mpr
+      (doolittleInPlaceSymbolic_support jac.n _ r c hr hc h)
+  | mozartInPlace =>
+    exact (zero?_mk_iff (wf_mozartInPlaceSymbolic jac.n (fun r c => jac.zero? r c)) jac.csc jac.L r c).mpr
+      (mozartInPlaceSymbolic_support jac.n _ r c hr hc h)
+
+/-- the configuration assembled as `SolverBuilder::Build` does — process-set tables, the Jacobian
+    pattern `BuildJacobian(NonZeroJacobianElements)` in either storage order and any group length,
+    any of the four LU variants, flat ids computed on the pattern of `state.jacobian_`, the diagonal
+    ranks of that pattern — satisfies `BuiltCfg` -/
+theorem builtCfg_of_builder (procs : List (Process K)) (m : NameMap) (t : PSTables K)
+    (hb : ProcessSet.build procs m = .ok t)
+    (hk : (m.map (·.1)).Nodup) (hv : (m.map (·.2)).Nodup)
+    (hparam : ∀ p ∈ procs, ∀ r ∈ p.reactants, r.param = true → nmLookup m r.name = none)
+    (n : Nat) (hn : ∀ e ∈ m, e.2 < n) (csc : Bool) (L Ld : Nat) (kind : LUKind) (flat : List Nat)
+    (hflat : t.jacobianFlatIds
+      (LinAlg.build kind (Pattern.mk' n csc L (buildJacobianSet n t.nonZeroJacobianElements))).A = .ok flat) :
+    BuiltCfg
+      { nSpecies := n, L := Ld, tables := t, flatIds := flat,
+        la := LinAlg.build kind (Pattern.mk' n csc L (buildJacobianSet n t.nonZeroJacobianElements)),
+        diag := (LinAlg.build kind
+          (Pattern.mk' n csc L (buildJacobianSet n t.nonZeroJacobianElements))).A.diagRanks }
+      m procs n kind (Pattern.mk' n csc L (buildJacobianSet n t.nonZeroJacobianElements)) := by
+  have hw : WF n (buildJacobianSet n t.nonZeroJacobianElements) := jac_buildJacobianSet_WF procs m t hb n hn
+  have hg := good_mk hw csc L
+  have hgA := build_A_good kind _ hg
+  have hjd : ∀ i, i < n →
+      (Pattern.mk' n csc L (buildJacobianSet n t.nonZeroJacobianElements)).zero? i i = false :=
+    fun i hi => (zero?_mk_iff hw csc L i i).mpr
+      ((jac_mem_buildJacobianSet n _ (i, i)).mpr (Or.inr ⟨rfl, hi⟩))
+  exact {
+    tables := hb, names := hk, ids := hv, idlt := hn, param := hparam, la := rfl, jn := rfl,
+    jdiag := hjd, flat := hflat, diag := rfl,
+    inj := fun _ _ _ _ _ h1 h2 => hgA.rank_inj h1 h2,
+    range := fun _ _ _ h => hgA.rank_lt h,
+    diagP := fun i hi => build_A_support kind _ i i hi hi (hjd i hi),
+    cover := fun x hx => by
+      have hx' : x ∈ buildJacobianSet n t.nonZeroJacobianElements :=
+        (jac_mem_buildJacobianSet n _ x).mpr (Or.inl hx)
+      obtain ⟨h1, h2⟩ := hw.range x hx'
+      exact build_A_support kind _ x.1 x.2 h1 h2 ((zero?_mk_iff hw csc L x.1 x.2).mpr hx') }
+
+end Builder
 
 end Micm
